@@ -659,6 +659,100 @@ func c18Single(ck *c18Checker, key string) {
 			ck.way("C18/pre/closed3/"+id, "", c18Closed3, false, true, base)
 		}
 	}
+	// composite values built FROM this key's own list: membership is exact equality with one
+	// entry, so anything assembled from entries (joined, affixed, cut) is an unlisted value
+	comps := c18CompositeValues(key)
+	for vi, val := range comps {
+		for ai, ar := range c18AreaClasses {
+			kv := c18Tag{key, val.V}
+			base := ar.with(kv)
+			withUn := append([]c18Tag{u[(vi+ai)%len(u)]}, base...)
+			id := fmt.Sprintf("%s=%s/area=%s", key, val.Label, ar.Label)
+			ck.way("C18/way/"+id, "w/"+id, c18Closed4, true, true, base, c18Reverse(base))
+			ck.way("C18/way/"+id+"/+unrelated", "", c18Closed5, true, true, withUn, c18Reverse(withUn))
+		}
+	}
+	ck.res.Add("composite_values_run", int64(len(comps)))
+}
+
+var c18Separators = []string{";", ",", "|", " ", "; ", " ; ", ";;", "\x00", "\n", "/", ":", "_", ""}
+
+// c18CompositeValues: for a whitelist / blacklist key, values assembled from its own listed
+// entries — every ordered pair and triple of entries joined by each separator, the whole list
+// joined (as listed, reversed, sorted), every entry with a leading / trailing / surrounding
+// separator, every entry joined with an unlisted value or an entry of another key, every entry
+// doubled, and every contiguous proper substring of an entry. None of them equals an entry
+// (those that do are dropped), so all of them are unlisted values for that key.
+func c18CompositeValues(key string) []c18Val {
+	own := c18OwnListed(key)
+	if len(own) == 0 {
+		return nil
+	}
+	set := c18RuleOnly[key]
+	if set == nil {
+		set = c18RuleExcept[key]
+	}
+	var out []c18Val
+	seen := map[string]bool{}
+	add := func(v string) {
+		if _, entry := set[v]; entry || seen[v] || v == "" || v == "no" {
+			return
+		}
+		seen[v] = true
+		out = append(out, c18Val{fmt.Sprintf("%q", v), v})
+	}
+	foreign := "services"
+	if key == "highway" {
+		foreign = "riverbank"
+	}
+	sorted := append([]string{}, own...)
+	sort.Strings(sorted) // generator only: the oracle never needs an order
+	reversed := append([]string{}, own...)
+	for i, j := 0, len(reversed)-1; i < j; i, j = i+1, j-1 {
+		reversed[i], reversed[j] = reversed[j], reversed[i]
+	}
+	for _, sep := range c18Separators {
+		for i, a := range own {
+			for j, b := range own {
+				if i != j {
+					add(a + sep + b)
+				}
+			}
+			add(a + sep + a)
+			if sep != "" {
+				add(sep + a)
+				add(a + sep)
+				add(sep + a + sep)
+			}
+			for _, x := range []string{"yes", "no", foreign, "x"} {
+				add(a + sep + x)
+				add(x + sep + a)
+			}
+		}
+		add(strings.Join(own, sep))
+		add(strings.Join(sorted, sep))
+		add(strings.Join(reversed, sep))
+		if sep != "" {
+			add(sep + strings.Join(sorted, sep) + sep)
+		}
+	}
+	for i, a := range own {
+		for j, b := range own {
+			for k, c := range own {
+				if i != j && j != k && i != k {
+					add(a + ";" + b + ";" + c)
+				}
+			}
+		}
+	}
+	for _, a := range own {
+		for from := 0; from < len(a); from++ {
+			for to := from + 1; to <= len(a); to++ {
+				add(a[from:to])
+			}
+		}
+	}
+	return out
 }
 
 // pairs: all ordered pairs (key, other key) × representative values of both × area classes.
@@ -1672,7 +1766,7 @@ func init() {
 		Level: "exploration",
 		Rule: "exhaustive enumeration against /verif's own hash-map copy of the published polygon-features table (26 keys: 18 all, 5 whitelist with 22 values, 3 blacklist with 9 values; order-independent FNV checksum 0xfe2a837b2fff795c, re-measured on every run and reported as reference_table): " +
 			"(single) every rule key × every value listed under ANY key ∪ nine near-misses of each listed value (±char, case, blank, ';yes', NUL) ∪ {yes, no, \"\", No, NO, 'no ', unicode, 300 chars, …} × area ∈ {absent, no, yes, \"\", other}, each under 2 orders, under 4 orders with three hostile unrelated tags interleaved, and on an open and a 3-ref way; " +
-			"(pairs) all ordered pairs of rule keys × {no, \"\", yes, a value listed under another key, every own listed value}² × the five area classes, both orders; " +
+			"plus, for every whitelist / blacklist key, composite values assembled from its own entries (all ordered pairs and triples of entries joined by 13 separators incl. ';' ',' '|' blank NUL and none, the whole list joined in listed / reversed / sorted order, entries with leading / trailing separators, entries joined with unlisted or foreign values, doubled entries, every contiguous proper substring of an entry) × the area classes; (pairs) all ordered pairs of rule keys × {no, \"\", yes, a value listed under another key, every own listed value}² × the five area classes, both orders; " +
 			"(perm) every key × representative value × area class with two unrelated tags under ALL permutations; (unrelated) 57 near-miss keys alone, in all ordered pairs, all together, and around every key × representative value; " +
 			"(area) 24 spellings of the area value × 8 tag contexts; (pre) 31 node-ref shapes (0..6 and 2000 refs, open, closed, inner loops, negative / zero / >2^32 refs) × 12 tag sets; 40 annotation variants of the two end way-nodes (every subset of version/changeset/lat/lon differing, one-sided, NaN) × closed-by-ref / open-by-ref × 3 rings × 12 tag sets; " +
 			"(rel) 33 type values + absent × 6 tag contexts × 19 member-list shapes (nil, empty, one node / way / relation, only nodes, only relations, nodes+relations, only ways, way first / middle / last, annotated, unknown member types, self reference, 500 of a kind) × type first/last/middle, with the relation's own id / version / visibility / metadata (6 variants) rotating, plus the full metadata × member shape × {multipolygon, boundary, route, empty} grid and repeated type keys where both occurrences agree; (config) the exported assignable package-level variables of the root package (UninterestingTags extended by rule keys / area / type, emptied, set false, nil, replaced; hostile CustomJSONMarshaler/Unmarshaler, CommitInfoStart, ErrScannerClosed) in 10 configurations, each followed by every key × representative value × area class alone / among the stock uninteresting tags / next to an unrelated tag, tag-less and area-only ways, the unrelated tags and relation types × member shapes, state restored afterwards; (shared) 8/12/16 goroutines × 3 calls on one shared closed way with 9–40 tags in unsorted order (5 decision classes: one passing tag, passing tags + area=no, failing tags + area=yes, nothing passes, blacklisted only) and on one shared relation, a fresh object per round, plain and race builds; (multi) PRNG sets of 0–6 rule keys + area + unrelated tags under reverse, every rotation and 4 shuffles. " +
